@@ -87,6 +87,27 @@ let parse_cmd (ar : M.arch) (st : M.state) (t : string list) : M.cmd =
                                                       m_seg = zs seg; m_addr = zs addr; m_size = zs size; m_off = zs off } } with
      | Some c -> c
      | None -> failwith "evex vsib path: stuck or unsupported form")
+  | ["LP"; instid; rt0; rid0; rt1; rid1; bt; bid; it; mode; off] ->
+    (match M.a64_ldp_cmd (zs instid) { M.p_rtype0 = zs rt0; p_rid0 = zs rid0; p_rtype1 = zs rt1; p_rid1 = zs rid1; p_btype = zs bt; p_bid = zs bid;
+                                        p_itype = zs it; p_mode = zs mode; p_off = zs off } with
+     | Some c -> c
+     | None -> failwith "a64 load/store pair path: stuck or unsupported form")
+  | ["MV"; instid; store; rt; rid; rsize; bt; bid; it; iid; sh; seg; addr; size; off] ->
+    (match M.mov_cmd ar !has_base st (zs instid) { M.mv_rtype = zs rt; mv_rsize = zs rsize; mv_store = (store = "1");
+                                                   mv_mem = { M.m_dst = zs rid; m_btype = zs bt; m_bid = zs bid; m_itype = zs it; m_iid = zs iid; m_shift = zs sh;
+                                                              m_seg = zs seg; m_addr = zs addr; m_size = zs size; m_off = zs off } } with
+     | Some c -> c
+     | None -> failwith "mov path: stuck or unsupported form")
+  | ["LV"; instid; rt; rid; et; ei; bt; bid; it; iid; sop; sh; mode; off] ->
+    (match M.a64_simd_ldst_cmd (zs instid) { M.av_et = zs et; av_ei = (ei = "1");
+                                              av_mem = { M.a_rtype = zs rt; a_rid = zs rid; a_btype = zs bt; a_bid = zs bid; a_itype = zs it; a_iid = zs iid;
+                                                         a_shiftop = zs sop; a_shift = zs sh; a_mode = zs mode; a_off = zs off } } with
+     | Some c -> c
+     | None -> failwith "a64 simd load/store path: stuck or unsupported form")
+  | ["VR"; instid; t0; d; t1; s1; t2; s2; size] ->
+    (match M.vrrr_cmd ar st (zs instid) { M.vr_t0 = zs t0; vr_d = zs d; vr_t1 = zs t1; vr_s1 = zs s1; vr_t2 = zs t2; vr_s2 = zs s2; vr_size = zs size } with
+     | Some c -> c
+     | None -> failwith "vex/evex register path: stuck or unsupported form")
   | ["CP"; id; size; align] -> M.CEmbedConstPool (zs id, zs size, zs align)
   | ["ELD"; id; b; s] -> M.CEmbedLabelDelta (zs id, zs b, zs s)
   | ["S"; id; f] -> M.CSection (zs id, f = "1")
@@ -100,7 +121,7 @@ let () =
     while true do
       let line = input_line stdin in
       if String.length line > 1 && line.[0] = 'T' then
-        print_endline ("T " ^ String.concat " " (List.map sz (M.model_constants @ M.path_constants @ M.mem_path_constants @ M.a64_path_constants)))
+        print_endline ("T " ^ String.concat " " (List.map sz (M.model_constants @ M.path_constants @ M.mem_path_constants @ M.a64_path_constants @ M.a64_simd_constants)))
       else if String.length line > 1 && line.[0] = 'P' then begin
         bind_atomic := (field (split line) "bind_atomic" = "1");
         print_endline line
